@@ -103,9 +103,29 @@ def build_harness(name, extra=(), opt="-O1", sanitize=False, std="c++11", libs=(
     cmd = ["g++", "-std=" + std, opt, "-g", "-ffp-contract=off", "-Wno-cpp", "-fopenmp",
            "-D" + GUARD, "-I" + os.path.join(REPO, "src"), "-I" + cfg,
            "-I" + os.path.join(VERIF, "harness")]
+    # system include directories CMake found for /repo (HDF5, MPI, ...)
+    try:
+        nin = open(os.path.join(FULL, "build.ninja")).read()
+        for inc in sorted(set(re.findall(r"-I(/usr/[^ \n]+)", nin))):
+            cmd.append("-I" + inc)
+    except OSError:
+        pass
     if sanitize:
         cmd += ["-fsanitize=address,undefined", "-fno-sanitize-recover=all"]
     cmd += list(extra) + [os.path.join(VERIF, "harness", name + ".cpp"), "-o", out] + list(libs)
+    # the MPI / HDF5 shared libraries CMake links /repo's own binaries with (headers such as
+    # DensitySubGrid.hpp pull in <mpi.h> when HAVE_MPI is configured)
+    try:
+        m = re.search(r"LINK_LIBRARIES = (.*)", nin)
+        if m:
+            sos = []
+            for so in re.findall(r"(/usr/\S+\.so)", m.group(1)):
+                if so not in sos:
+                    sos.append(so)
+            rp = sorted(set(os.path.dirname(so) for so in sos))
+            cmd += sos + ["-Wl,-rpath," + ":".join(rp)] if sos else []
+    except NameError:
+        pass
     rc, o = sh(cmd)
     if rc != 0:
         raise HarnessBuildError(name, o)
